@@ -1473,7 +1473,7 @@ class Exec:
         m = getattr(self, "st_" + type(x).__name__, None)
         if m is None:
             raise VCError(f"statement {type(x).__name__} outside subset at line {x.lineno}")
-        if self.contract is not None and self.contract.asserts and self.depth == 0 and not self.silent and not isinstance(x, (ast.If, ast.For, ast.While)):
+        if self.contract is not None and self.contract.asserts and self.depth == 0 and not self.silent and not isinstance(x, (ast.If, ast.While)):
             src = " ".join(ast.unparse(x).split())
             for nm, anchor, expr in self.contract.asserts:
                 if src.startswith(" ".join(anchor.split())):
